@@ -2289,58 +2289,172 @@ fn realtime_case(m: &mut Model, rep: &mut Report, r: &mut Rng) {
     rep.case(stream, Some(&key));
 }
 
-/// Lock-order experiment (liveness, outside the safety property): `commit` / `abort` / … hold `pending.write()`
-/// while they take the lock-table locks (`locks.write()` inside release_by_handle_with_wait_cleanup);
-/// `release_orphaned_locks` holds `locks.write()` + `tx_locks.write()` while it takes `pending.read()`.
-/// Two OS threads, one ending transactions, one sweeping; a watchdog reports whether both stop making progress.
-/// The threads are detached: if they block each other they stay blocked until the process exits.
-fn sweep_vs_end_lock_order(rep: &mut Report, rounds: u64, budget_ms: u64) {
+/// Lock-order regression oracle for DistributedTxCoordinator.release_orphaned_locks/lock_order_deadlock_with_end_of_tx
+/// (fixed in /repo aa0e56f6).  Every end-of-transaction site holds `pending.write()` while it takes the lock-table
+/// locks (`locks.write()` inside release_by_handle_with_wait_cleanup); before the fix `release_orphaned_locks` held
+/// `locks.write()` + `tx_locks.write()` while it took `pending.read()`, so a sweeping thread and an ending thread
+/// blocked each other for ever.  Lean: OrderProps.coordinator_calls_never_stuck (current order),
+/// sweep_old_deadlocks_with_end_of_tx_witness (old order).
+///
+/// OS threads on one coordinator (a: whole transaction lives ending at every end site, b: the sweep, c — hammer
+/// only — every other call that takes `pending` or the lock-table locks); each publishes the call it is in and a
+/// progress counter.  A watchdog declares a thread blocked when it is inside a call and its counter has not moved
+/// for `WATCHDOG_MS`.  The class of the report is computed from the calls the blocked threads are in.  The threads
+/// are detached: if they block each other they stay blocked until the process exits.
+const WATCHDOG_MS: u64 = 1_500;
+const SITE_NAMES: [&str; 14] = ["idle", "begin", "handle_prepare", "record_vote", "commit", "abort", "force_resolve", "complete_commit",
+    "release_orphaned_locks", "cleanup_timeouts", "recover", "to_state", "lock_manager.cleanup_expired", "complete_abort"];
+const SWEEP_SITE: u64 = 8;
+fn is_end_site(s: u64) -> bool { matches!(s, 4 | 5 | 6 | 7 | 9 | 10 | 13) }
+
+struct Probe { site: AtomicU64, done: AtomicU64 }
+impl Probe {
+    fn new() -> Arc<Probe> { Arc::new(Probe { site: AtomicU64::new(0), done: AtomicU64::new(0) }) }
+    fn call<T>(&self, site: u64, f: impl FnOnce() -> T) -> T {
+        self.site.store(site, Ordering::SeqCst);
+        let r = f();
+        self.site.store(0, Ordering::SeqCst);
+        r
+    }
+}
+
+/// one transaction life on `shards` shards (one key each), ended at the site chosen by `how`
+fn probed_life(c: &DistributedTxCoordinator, p: &Probe, shards: usize, key_base: u64, how: u64) {
+    let parts: Vec<usize> = (0..shards).collect();
+    let Ok(tx) = p.call(1, || c.begin(&"n1".to_string(), &parts)) else { return; };
+    let mut phase = None;
+    for sh in 0..shards {
+        let v = p.call(2, || c.handle_prepare(&prep(tx.tx_id, &[key_base + sh as u64], sh)));
+        if let Ok(ph) = p.call(3, || c.record_vote(tx.tx_id, sh, v)) { phase = ph.or(phase); }
+    }
+    let prepared = phase == Some(TxPhase::Prepared);
+    match how % 6 {
+        0 | 1 => { if !prepared || p.call(4, || c.commit(tx.tx_id)).is_err() { let _ = p.call(5, || c.abort(tx.tx_id, "x")); } }
+        2 => { let _ = p.call(5, || c.abort(tx.tx_id, "x")); }
+        3 => { if p.call(6, || c.force_resolve(tx.tx_id, prepared)).is_err() { let _ = p.call(5, || c.abort(tx.tx_id, "x")); } }
+        4 => {
+            // recover() moves a Prepared all-yes transaction to Committing; complete_commit ends it
+            p.call(10, || { let _ = c.recover(); });
+            if p.call(7, || c.complete_commit(tx.tx_id)).is_err() { let _ = p.call(5, || c.abort(tx.tx_id, "x")); }
+        }
+        _ => { if p.call(13, || c.complete_abort(tx.tx_id)).is_err() { let _ = p.call(5, || c.abort(tx.tx_id, "x")); } }
+    }
+}
+
+fn sweep_vs_end_lock_order(rep: &mut Report, name: &'static str, filler_locks: u64, shards: usize, with_third: bool, rounds: u64, budget_ms: u64) {
     let c = Arc::new(DistributedTxCoordinator::new(ConsensusManager::new(ConsensusConfig::default()), co_config(1_000_000)));
-    let done_a = Arc::new(AtomicU64::new(0));
-    let done_b = Arc::new(AtomicU64::new(0));
+    // a large lock table makes every release_by_handle_with_wait_cleanup scan long, so `commit` holds
+    // pending.write() across `shards` separate lock-table sections with wide gaps between them
+    if filler_locks > 0 {
+        let keys: Vec<String> = (0..filler_locks).map(|k| kname(1_000_000 + k)).collect();
+        let _ = c.lock_manager().try_lock(u64::MAX - 7, &keys);
+    }
     let stop = Arc::new(AtomicU64::new(0));
+    let mut probes: Vec<(&'static str, Arc<Probe>)> = Vec::new();
     {
-        let (c, done, stop) = (c.clone(), done_a.clone(), stop.clone());
+        let (c, p, stop) = (c.clone(), Probe::new(), stop.clone());
+        probes.push(("lives", p.clone()));
         std::thread::spawn(move || {
             for i in 0..rounds {
                 if stop.load(Ordering::Relaxed) != 0 { break; }
-                if let Ok(tx) = c.begin(&"n1".to_string(), &[0]) {
-                    let v = c.handle_prepare(&prep(tx.tx_id, &[i % 4], 0));
-                    let _ = c.record_vote(tx.tx_id, 0, v);
-                    if c.commit(tx.tx_id).is_err() { let _ = c.abort(tx.tx_id, "x"); }
-                }
-                done.store(i + 1, Ordering::Relaxed);
+                probed_life(&c, &p, shards, (i % 4) * 64, if shards > 1 && !with_third { 0 } else { i });
+                p.done.store(i + 1, Ordering::SeqCst);
             }
-            done.store(u64::MAX, Ordering::Relaxed);
+            p.done.store(u64::MAX, Ordering::SeqCst);
         });
     }
     {
-        let (c, done, stop) = (c.clone(), done_b.clone(), stop.clone());
+        let (c, p, stop) = (c.clone(), Probe::new(), stop.clone());
+        probes.push(("sweeper", p.clone()));
         std::thread::spawn(move || {
-            for i in 0..rounds {
+            for i in 0..rounds.saturating_mul(64) {
                 if stop.load(Ordering::Relaxed) != 0 { break; }
-                let _ = c.release_orphaned_locks(0);
-                done.store(i + 1, Ordering::Relaxed);
+                // partition start 0 sweeps nothing; a start in the future sweeps every lock of a non-pending owner
+                // acquired so far (only when there is no filler table, which it would sweep away)
+                let start = if filler_locks == 0 && i % 8 == 0 { now_ms() + 1 } else { 0 };
+                let _ = p.call(SWEEP_SITE, || c.release_orphaned_locks(start));
+                p.done.store(i + 1, Ordering::SeqCst);
             }
-            done.store(u64::MAX, Ordering::Relaxed);
+            p.done.store(u64::MAX, Ordering::SeqCst);
+        });
+    }
+    if with_third {
+        let (c, p, stop) = (c.clone(), Probe::new(), stop.clone());
+        probes.push(("others", p.clone()));
+        std::thread::spawn(move || {
+            for i in 0..rounds.saturating_mul(64) {
+                if stop.load(Ordering::Relaxed) != 0 { break; }
+                match i % 5 {
+                    0 => { let _ = p.call(9, || c.cleanup_timeouts()); }
+                    1 => { p.call(10, || { let _ = c.recover(); }); }
+                    2 => { p.call(11, || { let _ = c.to_state(); }); }
+                    3 => { let _ = p.call(12, || c.lock_manager().cleanup_expired_with_wait_cleanup(c.wait_graph())); }
+                    _ => { probed_life(&c, &p, 1, 900 + i % 3, 2); }
+                }
+                p.done.store(i + 1, Ordering::SeqCst);
+            }
+            p.done.store(u64::MAX, Ordering::SeqCst);
         });
     }
     let t0 = std::time::Instant::now();
-    let (mut last, mut last_change) = ((0u64, 0u64), std::time::Instant::now());
-    let mut stuck = false;
+    let mut last: Vec<(u64, std::time::Instant)> = probes.iter().map(|_| (0, std::time::Instant::now())).collect();
+    let mut blocked: Vec<(usize, u64, u64)> = Vec::new(); // (thread, site, ms without progress)
+    let mut confirm_at: Option<std::time::Instant> = None;
     loop {
         std::thread::sleep(Duration::from_millis(5));
-        let cur = (done_a.load(Ordering::Relaxed), done_b.load(Ordering::Relaxed));
-        if cur.0 == u64::MAX || cur.1 == u64::MAX { break; }
-        if cur != last { last = cur; last_change = std::time::Instant::now(); }
-        if last_change.elapsed() > Duration::from_millis(1500) { stuck = true; break; }
+        let mut finished = false;
+        for (i, (_, p)) in probes.iter().enumerate() {
+            let d = p.done.load(Ordering::SeqCst);
+            if d == u64::MAX { if i == 0 { finished = true; } continue; }
+            if d != last[i].0 { last[i] = (d, std::time::Instant::now()); }
+        }
+        if finished { break; }
+        blocked = probes.iter().enumerate().filter_map(|(i, (_, p))| {
+            let site = p.site.load(Ordering::SeqCst);
+            let idle = last[i].1.elapsed().as_millis() as u64;
+            (p.done.load(Ordering::SeqCst) != u64::MAX && site != 0 && idle > WATCHDOG_MS).then_some((i, site, idle))
+        }).collect();
+        // the threads of one deadlock pass the limit a few milliseconds apart: once the first is over it, keep
+        // watching for another 400 ms so that the report names every blocked thread
+        if !blocked.is_empty() {
+            match confirm_at {
+                None => { confirm_at = Some(std::time::Instant::now() + Duration::from_millis(400)); blocked.clear(); continue; }
+                Some(t) if std::time::Instant::now() < t => { blocked.clear(); continue; }
+                Some(_) => break,
+            }
+        }
+        confirm_at = None;
         if t0.elapsed() > Duration::from_millis(budget_ms) { break; }
     }
     stop.store(1, Ordering::Relaxed);
-    rep.case("threads.sweep_vs_end", None);
-    rep.hit(if stuck { "threads.sweep_vs_end.both_threads_blocked" } else { "threads.sweep_vs_end.no_block_observed" });
-    rep.observe(json!({"what": "lock order: end-of-transaction sites take pending.write() then the lock-table locks; release_orphaned_locks takes the lock-table locks then pending.read()",
-        "both_threads_stopped_making_progress_for_1500ms": stuck, "ended_transactions": last.0, "sweeps": last.1, "rounds": rounds}));
+    let stream = format!("threads.sweep_vs_end.{name}");
+    rep.case(&stream, None);
+    let progress: Vec<serde_json::Value> = probes.iter().enumerate().map(|(i, (n, p))| json!({"thread": n, "calls_completed": last[i].0.min(p.done.load(Ordering::SeqCst)),
+        "inside": SITE_NAMES[p.site.load(Ordering::SeqCst) as usize]})).collect();
+    if blocked.is_empty() {
+        rep.hit(&format!("{stream}.no_block"));
+        if rep.samples.len() < 6 { rep.sample(json!({"stream": stream, "filler_locks": filler_locks, "shards_per_tx": shards, "threads": progress, "watchdog_ms": WATCHDOG_MS})); }
+        return;
+    }
+    rep.hit(&format!("{stream}.blocked"));
+    let sites: BTreeSet<u64> = blocked.iter().map(|b| b.1).collect();
+    let sweep_blocked = sites.contains(&SWEEP_SITE);
+    let end_sites: Vec<u64> = sites.iter().copied().filter(|s| is_end_site(*s)).collect();
+    let class = if sweep_blocked && !end_sites.is_empty() && sites.iter().all(|s| *s == SWEEP_SITE || is_end_site(*s)) {
+        "DistributedTxCoordinator.release_orphaned_locks/lock_order_deadlock_with_end_of_tx".to_string()
+    } else {
+        let names: Vec<&str> = sites.iter().map(|s| SITE_NAMES[*s as usize]).collect();
+        format!("DistributedTxCoordinator.{}/threads_blocked_inside_calls", names.join("+"))
+    };
+    rep.violation(&class,
+        &format!("threads inside coordinator calls made no progress for more than {WATCHDOG_MS} ms (a transaction whose thread is blocked inside an end-of-transaction site never releases its locks): {}",
+            blocked.iter().map(|(i, s, ms)| format!("thread {} inside {} for {} ms", probes[*i].0, SITE_NAMES[*s as usize], ms)).collect::<Vec<_>>().join("; ")),
+        json!({"case": name, "coordinator": "fresh, wal: None, optimistic locking default", "filler_locks_held_by_foreign_tx": filler_locks,
+            "thread_lives": format!("loop: begin({shards} shards); per shard handle_prepare(one key) + record_vote; end site by round (commit / abort / force_resolve / recover+complete_commit / complete_abort)"),
+            "thread_sweeper": "loop: release_orphaned_locks(partition_start)",
+            "thread_others": if with_third { "loop: cleanup_timeouts / recover / to_state / cleanup_expired_with_wait_cleanup / begin+prepare+abort" } else { "absent" },
+            "threads": progress, "watchdog_ms": WATCHDOG_MS,
+            "lean": "OrderProps.sweep_old_deadlocks_with_end_of_tx_witness (schedule [1,0,0]: commit takes pending.write, the sweep takes locks.write + tx_locks.write, then each waits for the other)"}));
 }
 
 /// stream 10: coordinator op scripts (begin / handle_prepare / record_vote / every end-of-transaction site /
@@ -2403,6 +2517,7 @@ fn main() {
         "co.end.force_resolve_commit.refused", "co.end.commit.wrongphase", "co.end.commit.notfound", "co.timeouts.some", "co.timeouts.none", "co.recover",
         "co.recover.to_committing", "co.recover.timed_out", "co.sweep.removed", "co.sweep.none", "co.sweep.kept_lock_of_pending_tx",
         "co.sweep.boundary_acquired_eq_start_kept", "co.saveload", "co.doom", "co.end.lock_left.vote_in_flight", "co.end.lock_left.vote_refused",
+        "threads.sweep_vs_end.directed.no_block", "threads.sweep_vs_end.hammer.no_block", "threads.sweep_vs_end.hammer_big_table.no_block",
         "graph2.clear", "graph2.stale.removed", "graph2.stale.none", "graph2.stale.boundary_elapsed_eq_ttl_kept", "graph2.wcc.true", "graph2.wcc.false",
     ].iter().map(|s| s.to_string()).collect();
     let mut m = Model::spawn(&args.driver);
@@ -2411,12 +2526,18 @@ fn main() {
 
     if args.extra.iter().any(|x| x == "--only-coord-ops") {
         coord_ops_stream(&mut m, &mut rep, &root, scale);
-        sweep_vs_end_lock_order(&mut rep, 200_000, 4_000);
+        sweep_vs_end_lock_order(&mut rep, "directed", 20_000, 16, false, 400, 4_000);
+        sweep_vs_end_lock_order(&mut rep, "hammer", 0, 2, true, 200_000, 4_000);
         rep.write(&args.out);
         return;
     }
     let t_start = std::time::Instant::now();
     let lap = |name: &str| eprintln!("[corr_locks] {name} done at {:.1}s", t_start.elapsed().as_secs_f64());
+    // ---- stream 0 (directed regression, runs first): one thread committing 16-shard transactions over a 20 000-entry
+    //      lock table (commit holds pending.write() across 16 long lock-table sections) against one sweeping thread —
+    //      the shortest history in which the sweep's lock order is the only thing preventing a deadlock
+    sweep_vs_end_lock_order(&mut rep, "directed", 20_000, 16, false, if args.thorough { 1_500 } else { 300 }, if args.thorough { 8_000 } else { 3_000 });
+    lap("threads.sweep_vs_end.directed");
     // ---- stream 1: lock-table op sequences (virtual clock), with shrinking of a disagreement
     let mut r = root.fork("table");
     let mut failed_cases = 0;
@@ -2590,12 +2711,14 @@ fn main() {
     lap("threads.coordinator");
     coord_ops_stream(&mut m, &mut rep, &root, scale);
     lap("coord.ops");
-    sweep_vs_end_lock_order(&mut rep, if args.thorough { 400_000 } else { 40_000 }, if args.thorough { 10_000 } else { 2_500 });
+    sweep_vs_end_lock_order(&mut rep, "hammer", 0, 2, true, if args.thorough { 400_000 } else { 40_000 }, if args.thorough { 10_000 } else { 2_500 });
+    sweep_vs_end_lock_order(&mut rep, "hammer_big_table", 5_000, 4, true, if args.thorough { 40_000 } else { 4_000 }, if args.thorough { 6_000 } else { 1_500 });
     lap("threads.sweep_vs_end");
     rep.note("lock-table time: (a) table.ops — a virtual tick clock realised through the public serialize/restore path (acquired_at_ms shifted) on the wall clock; (b) table.clock*, sched.*, coord B — the frozen millisecond clock of the hook tensor_chain::distributed_tx::verif_clock (/repo 654184dd): KeyLock::is_expired is `elapsed > timeout` (not expired at elapsed == timeout), mirrored by the model and compared at timeout-1 / timeout / timeout+1 through every expiry-dependent operation");
     rep.note("DistributedTransaction::is_timed_out (coordinator-level transaction timeout) reads SystemTime directly and is not covered by the clock hook; scenario C sleeps 45 ms against a 20 ms prepare timeout");
     rep.note("iteration order of the private HashMap/HashSet of WaitForGraph is read from its Debug output and passed to the model as an explicit input");
     rep.note("threads: LockManager and DistributedTxCoordinator never call TensorStore, so nverif::sched finds no yield point inside their operations (distribution keys sched.lm.no_yield_inside_operations / sched.coord.no_yield_inside_calls); sched.* therefore yields BETWEEN operations: deterministic operation-level interleavings of real threads whose linearisation is replayed on the model (sched.lockmanager) or judged by the property oracle (sched.coordinator). Every mutating LockManager operation takes locks.write() then tx_locks.write() before its first read and releases both after its last write; readers (is_locked, lock_holder, keys_for_transaction, lock_count_for_transaction) take one lock, to_serializable both in the same order: each operation is one critical section, so the sequential theorems apply per linearisation. Races inside operations are left to the OS-thread hammers threads.hammer (LockManager) and threads.coordinator (whole transaction lives).");
     rep.note("WaitForGraph operations are NOT single critical sections (edges, reverse_edges, wait_started, priorities are separate RwLocks taken one after the other). In the coordinator add_wait runs only inside the lock-table critical section and a transaction's calls are ordered; threads.graph_hammer drives the graph without that discipline and reports reverse-index divergence at quiescence as an observation");
+    rep.note("lock order (threads.sweep_vs_end.*): OS threads on one real coordinator, every thread publishes the call it is in and a progress counter; a thread inside a call without progress for 1500 ms is reported as a violation whose class is computed from the calls the blocked threads are in (the sweep + end-of-transaction sites only: DistributedTxCoordinator.release_orphaned_locks/lock_order_deadlock_with_end_of_tx, fixed in /repo aa0e56f6). The acquisition order itself cannot be observed (private RwLock fields, no yield point inside the coordinator); the Lean lock-order model (OrderModel.lean) is a transcription of the source");
     rep.write(&args.out);
 }
